@@ -91,6 +91,15 @@ pub fn type_tags(r: &Ref, ty: &str) -> BTreeSet<String> {
         let Ok(fl) = r.d.flat(ty) else { return };
         if fl.levels.len() > 1 {
             tags.insert("child".into());
+            // own fields narrower than an octet, under an ancestor whose payload has a size field
+            let sized_above = fl.levels[..fl.levels.len() - 1].iter().any(|l| l.fields.iter().any(|f| matches!(&f.k, FK::Size { target, .. } if target.starts_with('_'))));
+            let subbyte = fl.last().fields.iter().any(|f| f.bits().map(|w| w % 8 != 0).unwrap_or(false));
+            if sized_above && subbyte {
+                tags.insert("child.bitfields-under-sized-payload".into());
+            }
+            if fl.levels[..fl.levels.len() - 1].iter().any(|l| l.fields.iter().any(|f| matches!(&f.k, FK::Count { .. }))) {
+                tags.insert("child.ancestor-count-array".into());
+            }
         }
         if !r.d.children_of(ty).is_empty() {
             tags.insert("parent".into());
